@@ -396,7 +396,7 @@ def check_fused(db, rep, tier):
     seen = set()
     n = sum(1 for k in data['ops'] if k.startswith('v += ') or k.startswith('v -= '))
     for (rule, site, where, expected, found, function, exc, af) in data['findings']:
-        if rule == 'B.mustthrow' and 'size-mismatched' in expected and not af and site not in seen:
+        if rule == 'B.mustthrow' and not af and site not in seen and ('size-mismatched' in expected or site.startswith('v += ') or site.startswith('v -= ')):
             seen.add(site)
             if len(seen) <= 12:
                 rep.fail('C.dim.fused', site, where, 'an exception for a compound assignment between different dimensions', found, function)
